@@ -284,6 +284,46 @@ def rule_r3(rep, repo, gen_keys):
                           repo.rel("basegrid", loop))
 
 
+def rule_r4(rep, repo):
+    """Dimension-generic Cartesian branch: `Grid.moments` must not hard-wire the number of point
+    columns -- no tuple-unpacking of the transposed points/orders into a fixed number of names and
+    no constant column index -- unless the construct is dominated by a test of the dimension."""
+    f = repo.method("Grid", "moments")
+    n = 0
+    dim_tests = ("dim == 3", "dim == 2", "dim == 1", "self.points.shape[1] == 3", "centers.shape[1] == 3")
+    for node, guards in e6.guarded_nodes(f.node):
+        cartesian = any(t == "type_mom == 'cartesian'" and p for t, p in guards)
+        if not cartesian:
+            continue
+        guarded = any(t in dim_tests and p for t, p in guards)
+        bad = None
+        if isinstance(node, ast.Assign) and isinstance(node.targets[0], ast.Tuple) and len(node.targets[0].elts) in (2, 3):
+            v = norm(node.value)
+            if ".T" in v and any(k in v for k in ("pts", "points", "orders")):
+                bad = (f"`{norm(node)[:70]}` unpacks the columns into exactly {len(node.targets[0].elts)} names: "
+                       f"ValueError for grids of any other dimension")
+        if isinstance(node, ast.Subscript) and isinstance(node.slice, ast.Tuple) and node.slice.elts and \
+                isinstance(node.slice.elts[-1], ast.Constant) and node.slice.elts[-1].value in (1, 2) and \
+                any(k in norm(node.value) for k in ("pts", "points")):
+            bad = f"`{norm(node)[:60]}` addresses a fixed coordinate column: IndexError for lower-dimensional grids"
+        if bad is None:
+            continue
+        n += 1
+        if guarded:
+            rep.ok("R4.cartesian-dimension-generic", f"Grid.moments::{norm(node)[:40]}", repo.rel("basegrid", node), "guarded by a dimension test")
+        else:
+            rep.violation("R4.cartesian-dimension-generic", "basegrid.Grid.moments", norm(node)[:50],
+                          bad + " (Cartesian moments must work in one, two and three dimensions)", repo.rel("basegrid", node))
+    # positive statement: the generic formulation is present
+    src = " ".join(norm(s) for s in ast.walk(f.node) if isinstance(s, ast.Assign))
+    if n == 0:
+        if "all_orders[:, None]" in src and "np.prod(" in src:
+            rep.ok("R4.cartesian-dimension-generic", "Grid.moments[cartesian]", f.loc(),
+                   "powers taken by broadcasting over all columns, product over the column axis")
+        else:
+            rep.ok("R4.cartesian-dimension-generic", "Grid.moments[cartesian]", f.loc(), "no dimension-specific construct")
+
+
 def _guard_allows(test_txt, pol, key):
     """Can a guard over type_mom be satisfied (with the given polarity) when type_mom == key?"""
     try:
@@ -308,6 +348,7 @@ def run(tier="quick", root="/repo", evidence_dir=None, quiet=False):
     rule_r1(rep, repo)
     gen_keys = rule_r2(rep, repo)
     rule_r3(rep, repo, gen_keys)
+    rule_r4(rep, repo)
     import numpy
     import scipy
     rep.extra.update({"numpy": numpy.__version__, "scipy": scipy.__version__,
